@@ -392,6 +392,12 @@ def run(ctx, report):
         # the nullable-types option is a read option: whatever array type the integers / booleans land in, the VALUES are the file's
         int_like = tname in ("bool", "int32", "int8", "int16", "uint8", "uint16", "uint32", "int64", "uint64")
         variants = [("", {})] + ([(" [pandas_nulls=False]", {"pandas_nulls": False})] if int_like else [])
+        # the reader model on FOREIGN v1 pages (PLAIN / dictionary, index widths the kernels handle): core.read_data_page vs Impl.readDataPage
+        if ctx.model_ok and fam in ("plain", "dict") and not ch.get("v2") and (info.get("index_width") or 0) <= 24 and tname != "flba":
+            try:
+                wcases.reader_model_stream(ctx, report, path, {"foreign": True, "family": fam, "type": tname})
+            except Exception as e:  # noqa
+                report.notes.append("rpage.v1 on a foreign file raised " + canon_err(e) + " " + str(e)[:80]) if len(report.notes) < 8 else None
         results = [(vn, read_isolated(path, **kw)) for vn, kw in variants]
         os.remove(path)
         for vname, res in results:
